@@ -18,7 +18,8 @@ CHECKS['C03'] = {
             'locators); File.Read/Seek on a CollectionFileReader over a generated 1-2 stream manifest (unit file); 2-8 concurrent '
             'ReadAt / file readers of one block sharing the cache (units conc, race = same under -race in a child process; race '
             'reports are recorded as information only); one fixed scenario: bare-hash locator answered with Content-Length 64 MiB+1 '
-            '(unit oversize). Oracle: true content held by the harness + request log of the fakes. A case is non-trivial when at '
+            '(unit oversize); 2-5 distinct blocks read by 2-8 concurrent ReadAt callers through a cache of 1-2 blocks, all services correct '
+            '(unit evict; non-trivial when a block had to be fetched again after eviction). Oracle: true content held by the harness + request log of the fakes. A case is non-trivial when at '
             'least one non-correct answer was actually served before the result. distinct = fingerprint of (mode, locator, '
             'requests actually served with their behaviours, operation history)',
     'assumptions': [
@@ -36,6 +37,7 @@ CHECKS['C03'] = {
              env={'C03_UNSIZED_PCT': '40'}),
         unit('file', 'keepclient_c03', '^TestVerifC03File$', {'shards': 3, 'checks': 250}, dict(_RUN, shards=3, checks=10000)),
         unit('conc', 'keepclient_c03', '^TestVerifC03Concurrent$', {'shards': 2, 'checks': 100}, dict(_RUN, shards=2, checks=5000)),
+        unit('evict', 'keepclient_c03', '^TestVerifC03Evict$', {'shards': 3, 'checks': 60}, dict(_RUN, shards=4, checks=2500)),
         unit('race', 'keepclient_c03', '^TestVerifC03Race$', {'shards': 1, 'checks': 12}, dict(_RUN, shards=1, checks=500),
              race=True),
         unit('oversize', 'keepclient_c03', '^TestVerifC03OversizeCL$', {'shards': 1}, {'shards': 1}, rapid=False),
